@@ -50,6 +50,28 @@ static char *add_boundary_to_regex(zckCtx *zck, const char *regex,
     return regex_b;
 }
 
+/* Return a copy of boundary in which every character that is special in an
+ * extended regular expression is escaped, so it only matches itself */
+static char *escape_boundary(zckCtx *zck, const char *boundary) {
+    VALIDATE_PTR(zck);
+
+    if(boundary == NULL)
+        return NULL;
+    char *escaped = zmalloc(strlen(boundary) * 2 + 1);
+    if(!escaped) {
+        zck_log(ZCK_LOG_ERROR, "OOM in %s", __func__);
+        return NULL;
+    }
+    char *out = escaped;
+    for(const char *c = boundary; *c; c++) {
+        if(strchr(".[]()*+?{}|^$\\", *c))
+            *out++ = '\\';
+        *out++ = *c;
+    }
+    *out = '\0';
+    return escaped;
+}
+
 static bool create_regex(zckCtx *zck, regex_t *reg, const char *regex) {
     VALIDATE_BOOL(zck);
 
@@ -74,16 +96,24 @@ static bool gen_regex(zckDL *dl) {
     char *next = "\r?\n?--%s\r\n.*" \
                  "content-range: *bytes *([0-9]+) *- *([0-9]+) */[0-9]+";
     char *end =  "\r\n--%s--";
-    char *regex_n = add_boundary_to_regex(dl->zck, next, dl->boundary);
-    if(regex_n == NULL)
+    /* The boundary is arbitrary text chosen by the server, not a pattern */
+    char *boundary = escape_boundary(dl->zck, dl->boundary);
+    if(boundary == NULL)
         return false;
+    char *regex_n = add_boundary_to_regex(dl->zck, next, boundary);
+    if(regex_n == NULL) {
+        free(boundary);
+        return false;
+    }
     dl->dl_regex = zmalloc(sizeof(regex_t));
     if(!dl->dl_regex || !create_regex(dl->zck, dl->dl_regex, regex_n)) {
         free(regex_n);
+        free(boundary);
         return false;
     }
     free(regex_n);
-    char *regex_e = add_boundary_to_regex(dl->zck, end, dl->boundary);
+    char *regex_e = add_boundary_to_regex(dl->zck, end, boundary);
+    free(boundary);
     if(regex_e == NULL)
         return false;
     dl->end_regex = zmalloc(sizeof(regex_t));
